@@ -63,8 +63,16 @@ type rdScenario struct {
 	Sets     []rdSet
 	Items    []Item
 	Hwm      int64
+	Topic    string // per-scenario topic name: separates the RL.* hook events of concurrently running scenarios
 	Slow     int // > 0: the application sleeps this many ms after every message (QueueCapacity fills up, the fetcher
 	// blocks in sendMessage, responses are drained slower than MaxWait: batches end with RequestTimedOut instead of EOF)
+}
+
+func (sc *rdScenario) topic() string {
+	if sc.Topic == "" {
+		return "t"
+	}
+	return sc.Topic
 }
 
 func itemFirst(it Item) int64 {
@@ -140,7 +148,7 @@ type rdBroker struct {
 func newRdBroker(sc *rdScenario) *rdBroker {
 	rb := &rdBroker{sc: sc, items: sc.Items, first: itemFirst(sc.Items[0]), leader: 1, seq: map[int]int{},
 		hwm3: make(chan struct{}), last: time.Now()}
-	rb.b = &Broker{FetchMax: int16(sc.Ver), Topic: "t"}
+	rb.b = &Broker{FetchMax: int16(sc.Ver), Topic: sc.topic()}
 	rb.b.OnConn = func(int) bool {
 		rb.mu.Lock()
 		rb.hang = false
@@ -359,7 +367,7 @@ func runReader(sc *rdScenario) string {
 		Logger:      logger,
 		ErrorLogger: errLogger,
 		Brokers:     []string{"fake:9092"},
-		Topic:       "t",
+		Topic:       sc.topic(),
 		Partition:   0,
 		Dialer: &kafka.Dialer{DialFunc: func(ctx context.Context, network, addr string) (net.Conn, error) {
 			c, _ := rb.b.Dial()
@@ -444,6 +452,11 @@ func runReader(sc *rdScenario) string {
 			continue
 		}
 		stream = append(stream, fmt.Sprintf("%d:%d", m.Offset, msgDigest(m)))
+		if rd.Offset() != m.Offset+1 {
+			// Reader.Offset() is the position SetOffset compares with: it must follow the messages handed out
+			outcome = "badpos"
+			break
+		}
 		received++
 		lastMsg = time.Now()
 		atEnd = m.Offset == sc.Hwm-1
@@ -621,6 +634,10 @@ func readerCorpus() (scs []*rdScenario) {
 		mk(ver, "first", 2, []int{150}, nil, -1, 0, []rdSet{{K: 2, O: 112}, {K: 4, O: 100}})
 		mk(ver, "first", 100, []int{1}, nil, -1, 0, []rdSet{{K: 15, O: 114}})
 		mk(ver, "first", 5, []int{1}, nil, -1, 0, []rdSet{{K: 3, O: 103}})
+		// SetOffset to the offset of the message just handed out (it must come again) and to the one after it (no-op)
+		mk(ver, "first", 5, []int{1 << 20}, nil, -1, 0, []rdSet{{K: 4, O: 103}})
+		mk(ver, "first", 1, []int{1}, nil, -1, 0, []rdSet{{K: 4, O: 103}, {K: 6, O: 105}})
+		mk(ver, "first", 100, []int{150}, nil, -1, 0, []rdSet{{K: 4, O: 104}, {K: 5, O: 104}})
 		// slow consumer, QueueCapacity 1, responses cut at the byte limit inside the next batch: every batch ends
 		// after its (adjusted) deadline, i.e. with RequestTimedOut instead of io.EOF
 		mk(ver, "first", 1, []int{150}, nil, -1, 0, nil)
@@ -667,6 +684,10 @@ func readerCases(r *rand.Rand, thorough bool) {
 		}
 		scs = sel
 	}
+	for i, sc := range scs {
+		sc.Topic = fmt.Sprintf("t%04d", i) // fixed length: the topic name is part of every response frame (cut faults count bytes)
+	}
+	kafka.VerifStart()
 	res := make([]string, len(scs))
 	var wg sync.WaitGroup
 	work := make(chan int)
@@ -684,7 +705,78 @@ func readerCases(r *rand.Rand, thorough bool) {
 	}
 	close(work)
 	wg.Wait()
+	events := kafka.VerifStop()
 	for i, sc := range scs {
 		emit(sc.args(), res[i])
+	}
+	emitTraces(scs, events)
+}
+
+// emitTraces: op `rtrace` — the RL.* hook events of every fetcher goroutine ((*reader).run) of every scenario, one line
+// per fetcher: the oracle replays them through the loop LTS of Model/ReaderLoopLTS.lean (`rstep`), which must agree with
+// the recorded attempt / errcount / offset / conn offset at every step, and checks the `Good` hypotheses of the
+// loop theorems on the recorded fetch rounds.
+func emitTraces(scs []*rdScenario, events []kafka.VerifEvent) {
+	type key struct{ topic, fetcher string }
+	traces := map[key][]string{}
+	var order []key
+	for _, e := range events {
+		if !strings.HasPrefix(e.Kind, "RL.") || len(e.Args) < 2 {
+			continue
+		}
+		k := key{e.Args[1], e.Args[0]}
+		if _, ok := traces[k]; !ok {
+			order = append(order, k)
+		}
+		ev := strings.TrimPrefix(e.Kind, "RL.") + ":" + strings.Join(e.Args[2:], ":")
+		t := traces[k]
+		// idle polling (and any other exact repetition of an iteration without messages) is recorded once
+		if n := len(t); n >= 3 && strings.HasPrefix(ev, "Read:") && t[n-1] == t[n-3] && strings.HasPrefix(t[n-1], "Iter:") && t[n-2] == ev {
+			traces[k] = t[:n-1]
+			continue
+		}
+		if len(t) < 600 {
+			traces[k] = append(t, ev)
+		}
+	}
+	byTopic := map[string]*rdScenario{}
+	for _, sc := range scs {
+		byTopic[sc.topic()] = sc
+	}
+	// op `ftrace`: the RF.* events of the Reader front of every scenario (fetcher started with its version tag, message
+	// enqueued with its tag, message accepted / dropped by FetchMessage, SetOffset), in recorded order
+	front := map[string][]string{}
+	for _, e := range events {
+		if strings.HasPrefix(e.Kind, "RF.") && len(e.Args) >= 2 && len(front[e.Args[1]]) < 2000 {
+			front[e.Args[1]] = append(front[e.Args[1]], strings.TrimPrefix(e.Kind, "RF.")+":"+strings.Join(e.Args[2:], ":"))
+		}
+	}
+	for _, sc := range scs {
+		if evs := front[sc.topic()]; len(evs) > 0 {
+			tr := "-"
+			if sc.TruncIdx >= 0 {
+				tr = fmt.Sprintf("%d", sc.TruncN)
+			}
+			emit(fmt.Sprintf("ftrace sc=%s hwm=%d first=%d truncn=%s L=%s T=%s", sc.topic(), sc.Hwm, itemFirst(sc.Items[0]), tr,
+				layoutText(sc.Items), strings.Join(evs, ";")), "ok")
+		}
+	}
+	nth := map[string]int{}
+	for _, k := range order {
+		sc := byTopic[k.topic]
+		if sc == nil {
+			continue
+		}
+		nth[k.topic]++
+		tr := "-"
+		if sc.TruncIdx >= 0 {
+			tr = fmt.Sprintf("%d", sc.TruncN)
+		}
+		bs := make([]string, len(sc.Budgets))
+		for i, b := range sc.Budgets {
+			bs[i] = strconv.Itoa(b)
+		}
+		emit(fmt.Sprintf("rtrace sc=%s f=%d hwm=%d truncn=%s budgets=%s L=%s T=%s", k.topic, nth[k.topic], sc.Hwm, tr,
+			strings.Join(bs, ","), layoutText(sc.Items), strings.Join(traces[k], ";")), "ok")
 	}
 }
